@@ -18,7 +18,9 @@ class C11(SimCheck):
         "send of {application, Heartbeat, Logon, Logout, TestRequest, ResendRequest, SequenceReset}; an application-initiated "
         "disconnect (with / without Logout text); a peer-side close; optionally a second stimulus overlapping the first; "
         "back-pressure on drain and suspension of on_state_change / on_message / on_logon / on_logout / on_disconnect / "
-        "on_connect let the heartbeat task, the reader task and application tasks overlap inside disconnect(); gate invariants "
+        "on_connect / should_replay let the heartbeat task, the reader task and application tasks overlap inside disconnect(); "
+        "1 run in 4 (short heartbeat) stalls callbacks for 1.5-8 intervals of simulated time; 1 run in 10 is the scenario 'a resend reply in "
+        "progress when the session ends' over a pre-filled outbound journal; gate invariants "
         "are evaluated at every callback and every transport write, a per-stimulus judgement when the stimulus ran alone; "
         "non-trivial = >= 3 chooser actions or a fault; distinct = distinct digest of the (event kind, actor) sequence"
     )
